@@ -341,13 +341,55 @@ impl<P: Part> DynPart for P {
         self.name()
     }
     fn replay(&self, v: &Value) -> Result<Result<(), Fail>, String> {
+        // a case that only fails after other cases ran before it on the same thread (state kept in a thread-local or a static)
+        // is stored with that history: {"history": [case, ...], "then": case}
+        if let (Some(h), Some(last)) = (v.get("history").and_then(|h| h.as_array()), v.get("then")) {
+            let mut cases = vec![];
+            for x in h {
+                cases.push(self.from_json(x).ok_or_else(|| format!("cannot parse a history case for part {}", self.name()))?);
+            }
+            let c = self.from_json(last).ok_or_else(|| format!("cannot parse case for part {}", self.name()))?;
+            return Ok(run_after_history(self, &cases, &c));
+        }
         let c = self
             .from_json(v)
             .ok_or_else(|| format!("cannot parse case for part {}", self.name()))?;
-        let mut ev = Local::new();
-        Ok(run_check(self, &c, &mut ev))
+        Ok(in_fresh_thread(|| {
+            let mut ev = Local::new();
+            run_check(self, &c, &mut ev)
+        }))
     }
 }
+
+/// run `f` on a thread of its own (pristine thread-local state)
+pub fn in_fresh_thread<T: Send>(f: impl FnOnce() -> T + Send) -> T {
+    std::thread::scope(|sc| sc.spawn(f).join().expect("check threads do not panic (run_check guards)"))
+}
+
+/// On a fresh thread: evaluate the history cases (their verdicts are ignored), then the case itself.
+pub fn run_after_history<P: Part + ?Sized>(p: &P, history: &[P::Case], c: &P::Case) -> Result<(), Fail> {
+    in_fresh_thread(|| {
+        let mut ev = Local::new();
+        ev.frozen = true;
+        for h in history {
+            let _ = run_check(p, h, &mut ev);
+        }
+        run_check(p, c, &mut ev).map_err(|f| {
+            if history.is_empty() {
+                f
+            } else {
+                Fail::new(
+                    f.sig.clone(),
+                    format!("[only after {} other case(s) of this part were evaluated on the same thread - state leaks between independent operations; alone the case passes] {}", history.len(), f.msg),
+                )
+            }
+        })
+    })
+}
+
+/// how many of a worker's most recent cases are kept for the history of a failure that does not reproduce alone
+const HISTORY: usize = 48;
+
 
 /// check with a harness-level panic guard: a panic escaping the oracle itself is reported as
 /// a failure with signature `harness-panic` (the oracles guard the code under test themselves
@@ -585,6 +627,9 @@ impl Run {
                     };
                     let mut runner = TestRunner::new(cfg);
                     let ev = std::cell::RefCell::new(Local::new());
+                    // the worker's most recent cases, and the first failing case with the cases that preceded it
+                    let recent: std::cell::RefCell<std::collections::VecDeque<P::Case>> = std::cell::RefCell::new(std::collections::VecDeque::with_capacity(HISTORY + 1));
+                    let first_failure: std::cell::RefCell<Option<(Vec<P::Case>, P::Case)>> = std::cell::RefCell::new(None);
                     let res = runner.run(strat, |c| {
                         if stop.load(Ordering::Relaxed) && !ev.borrow().frozen {
                             // another worker already failed: finish quickly
@@ -592,7 +637,18 @@ impl Run {
                         }
                         let mut evb = ev.borrow_mut();
                         evb.eval();
-                        match run_check(part, &c, &mut evb) {
+                        let verdict = run_check(part, &c, &mut evb);
+                        if !evb.frozen {
+                            if verdict.is_err() {
+                                *first_failure.borrow_mut() = Some((recent.borrow().iter().cloned().collect(), c.clone()));
+                            }
+                            let mut r = recent.borrow_mut();
+                            if r.len() == HISTORY {
+                                r.pop_front();
+                            }
+                            r.push_back(c.clone());
+                        }
+                        match verdict {
                             Ok(()) => Ok(()),
                             Err(f) => {
                                 if known.iter().any(|k| *k == f.sig) {
@@ -611,16 +667,40 @@ impl Run {
                         Ok(()) => None,
                         Err(TestError::Fail(_, c)) => {
                             local.frozen = true;
-                            let mut scratch = Local::new();
-                            scratch.frozen = true;
-                            let f = match run_check(part, &c, &mut scratch) {
-                                Err(f) => f,
-                                Ok(()) => Fail::new(
-                                    "flaky",
-                                    "shrunk case passes on re-run (non-deterministic oracle?)",
-                                ),
-                            };
-                            Some((f, part.to_json(&c)))
+                            // the verdict that counts is the one a fresh thread gives (what a replay of the stored case will
+                            // see): first the shrunk case alone, then the original failing case alone, then the original case
+                            // after the cases that preceded it on this worker (shortest suffix of them that still fails)
+                            let alone = |c: &P::Case| run_after_history(part, &[], c);
+                            match alone(&c) {
+                                Err(f) => Some((f, part.to_json(&c))),
+                                Ok(()) => {
+                                    let ff = first_failure.borrow_mut().take();
+                                    let mut found = None;
+                                    if let Some((hist, orig)) = ff {
+                                        if let Err(f) = alone(&orig) {
+                                            found = Some((f, part.to_json(&orig)));
+                                        } else if run_after_history(part, &hist, &orig).is_err() {
+                                            // binary search for the shortest suffix (assumes the leak is monotone in the history)
+                                            let (mut lo, mut hi) = (1usize, hist.len());
+                                            while lo < hi {
+                                                let mid = (lo + hi) / 2;
+                                                if run_after_history(part, &hist[hist.len() - mid..], &orig).is_err() {
+                                                    hi = mid;
+                                                } else {
+                                                    lo = mid + 1;
+                                                }
+                                            }
+                                            let h = &hist[hist.len() - hi..];
+                                            if let Err(f) = run_after_history(part, h, &orig) {
+                                                found = Some((f, json!({"history": h.iter().map(|x| part.to_json(x)).collect::<Vec<_>>(), "then": part.to_json(&orig)})));
+                                            } else if let Err(f) = run_after_history(part, &hist, &orig) {
+                                                found = Some((f, json!({"history": hist.iter().map(|x| part.to_json(x)).collect::<Vec<_>>(), "then": part.to_json(&orig)})));
+                                            }
+                                        }
+                                    }
+                                    Some(found.unwrap_or_else(|| (Fail::new("flaky", "the failing case passes when evaluated again on a fresh thread, alone and after the cases that preceded it (non-deterministic oracle, or state older than the kept history?)"), part.to_json(&c))))
+                                },
+                            }
                         },
                         Err(TestError::Abort(r)) => Some((
                             Fail::new("harness-abort", format!("proptest aborted: {r}")),
